@@ -160,6 +160,10 @@ static void dumpEntity(const EntityDescriptor *ed) {
                   << " for=" << (ia->inverted_attr_id_() ? ia->inverted_attr_id_() : "NULL")
                   << " of=" << (ia->inverted_entity_id_() ? ia->inverted_entity_id_() : "NULL") << "\n";
     }
+    {
+        const char *st = const_cast<EntityDescriptor *>(ed)->Supertype_Stmt();
+        if (st && *st) std::cout << " SS - " << hexOf(st) << "\n";
+    }
     {   // initializer text of the attributes in the DERIVE clause
         AttrDescItr di(ed->ExplicitAttr());
         const AttrDescriptor *d;
